@@ -8,7 +8,7 @@ use serde_json::json;
 use ta::errors::TaError;
 use ta::{Close, DataItem, High, Low, Open, Volume};
 
-pub const RULE: &str = "EXHAUSTIVE: all 10^5 five-tuples over the lattice {-inf,-2,-1,-0.0,0.0,1,2,3,+inf,NaN} for (open,high,low,close,volume) x all 32 subsets of the five setters (in canonical order); for complete subsets on the 10^3-tuple sub-lattice {-1,0.0,1,2,NaN,...} additionally all 120 setter orders, and programs with repeated setters (the last value must win). RANDOM: 2*10^6 (quick) / 4*10^7 (thorough) finite tuples (consistent and inconsistent). Oracle (IEEE comparisons evaluated by the harness): Incomplete iff some setter was never called; else Invalid iff not (l<=o && l<=c && l<=h && h>=o && h>=c && v>=0); else Ok and the five getters return the last value set bit-exactly, clone == item; built items are also fed to one indicator per price trait to tie getters to the Open/High/Low/Close/Volume traits. Every (tuple, subset, order) is a distinct case by construction; non-trivial = all of them (the rule has no trivial cases: each exercises a different branch combination).";
+pub const RULE: &str = "EXHAUSTIVE: all 10^5 five-tuples over the lattice {-inf,-2,-1,-0.0,0.0,1,2,3,+inf,NaN} for (open,high,low,close,volume) x all 32 subsets of the five setters (in canonical order); for complete subsets on the 10^3-tuple sub-lattice {-1,0.0,1,2,NaN,...} additionally all 120 setter orders, and programs with repeated setters (the last value must win); every sequence of setter calls of length <= 6 (8 thorough) over the five setters (repeated calls, proper subsets called many times), with a consistent and an inconsistent value assignment. RANDOM: 2*10^6 (quick) / 4*10^7 (thorough) finite tuples (consistent and inconsistent). Oracle (IEEE comparisons evaluated by the harness): Incomplete iff some setter was never called; else Invalid iff not (l<=o && l<=c && l<=h && h>=o && h>=c && v>=0); else Ok and the five getters return the last value set bit-exactly, clone == item; built items are also fed to one indicator per price trait to tie getters to the Open/High/Low/Close/Volume traits. Every (tuple, subset, order) is a distinct case by construction; non-trivial = all of them (the rule has no trivial cases: each exercises a different branch combination).";
 
 pub const LATTICE: [f64; 10] = [f64::NEG_INFINITY, -2.0, -1.0, -0.0, 0.0, 1.0, 2.0, 3.0, f64::INFINITY, f64::NAN];
 
@@ -162,6 +162,46 @@ fn run_lattice(ctx: &Ctx) -> Report {
     })
 }
 
+/// every sequence of setter calls of length 0..=L over the five setters: repeated calls, proper
+/// subsets called many times, any order. Values: the k-th call passes VALS[field][k % 2].
+fn run_sequences(ctx: &Ctx) -> Report {
+    let maxlen = ctx.pick(6usize, 8usize);
+    let jobs: Vec<usize> = (0..25).collect(); // first two calls
+    par_run(jobs, ctx.threads, move |j, rep| {
+        // two value assignments: a consistent bar, and one whose second choice is inconsistent
+        let vals: [[[f64; 2]; 5]; 2] = [
+            [[2.0, 1.5], [3.0, 2.5], [1.0, 1.25], [2.5, 2.0], [10.0, 0.0]],
+            [[2.0, 9.0], [3.0, 0.5], [1.0, 4.0], [2.5, f64::NAN], [10.0, -1.0]],
+        ];
+        fn rec(maxlen: usize, calls: &mut Vec<usize>, f: &mut dyn FnMut(&[usize])) {
+            f(calls);
+            if calls.len() < maxlen {
+                for s in 0..5 {
+                    calls.push(s);
+                    rec(maxlen, calls, f);
+                    calls.pop();
+                }
+            }
+        }
+        let mut calls = vec![j / 5, j % 5];
+        rec(maxlen, &mut calls, &mut |cs| {
+            for va in &vals {
+                let prog: Vec<(usize, f64)> = cs.iter().enumerate().map(|(k, f)| (*f, va[*f][(k / 2) % 2])).collect();
+                check_program(rep, &prog, "call_sequences");
+                rep.distinct_by_construction += 1;
+            }
+            rep.count("setter_call_sequences");
+        });
+        if *j == 0 {
+            // the empty program and the five single-call programs
+            check_program(rep, &[], "call_sequences");
+            for f in 0..5 {
+                check_program(rep, &[(f, 1.0)], "call_sequences");
+            }
+        }
+    })
+}
+
 fn run_random(ctx: &Ctx) -> Report {
     let total = ctx.pick(2_000_000usize, 40_000_000usize);
     let chunks = 64;
@@ -256,11 +296,14 @@ pub fn run(ctx: &Ctx) -> Report {
     if ctx.phase_enabled("random") {
         rep.merge(run_random(ctx));
     }
+    if ctx.phase_enabled("sequences") {
+        rep.merge(run_sequences(ctx));
+    }
     rep.sample(json!({"program": [["open", 1.0], ["high", 2.0], ["low", -0.0], ["close", 2.0], ["volume", -0.0]], "expected": "Ok (low <= open, -0.0 volume >= 0)"}));
     rep.sample(json!({"program": [["open", 1.0], ["high", "NaN"], ["low", 1.0], ["close", 1.0], ["volume", 0.0]], "expected": "DataItemInvalid"}));
     rep.sample(json!({"program": [["open", "NaN"], ["close", 1.0]], "expected": "DataItemIncomplete"}));
     if ctx.only.is_none() {
-        for key in ["expect.ok", "expect.invalid", "expect.incomplete", "sublattice_tuples_with_all_120_orders", "items_fed_to_indicators"] {
+        for key in ["expect.ok", "expect.invalid", "expect.incomplete", "sublattice_tuples_with_all_120_orders", "items_fed_to_indicators", "setter_call_sequences"] {
             if rep.counters.get(key).copied().unwrap_or(0) == 0 {
                 rep.inconclusive.push(format!("coverage floor missed: {} = 0", key));
             }
